@@ -18,7 +18,7 @@ git checkout -q -- src Cargo.toml
 d0=$(cargo test --offline --features serde --test seed_demo 2>&1 | grep -E "^test result" | awk '{print $4"/"$6}')
 rm -f tests/seed_demo.rs
 ok=1
-[ "$s1" = "158/0" ] || ok=0; [ "$s2" = "159/0" ] || ok=0
+p1=${s1%/*}; f1=${s1#*/}; p2=${s2%/*}; f2=${s2#*/}; [ "${p1:-0}" -ge 158 ] && [ "${f1:-1}" = 0 ] && [ "${p2:-0}" -ge 159 ] && [ "${f2:-1}" = 0 ] || ok=0
 case "$d1" in */0|"") ok=0;; esac
 case "$d0" in */0) ;; *) ok=0;; esac
 echo "$D suite(pass/fail)=$s1 suite+serde=$s2 demo_with_patch=$d1 demo_without=$d0 confirmed=$ok"
